@@ -262,6 +262,10 @@ func (e *Emitter) strConst(s string) string {
 	if !e.declared[name] {
 		e.declared[name] = true
 		e.pre = append(e.pre, fmt.Sprintf("(declare-const %s Str)", name), fmt.Sprintf("(assert (= (str_len %s) %d))", name, len(s)))
+		if len(s) == 0 {
+			// the empty string is the only string of length 0
+			e.pre = append(e.pre, fmt.Sprintf("(assert (forall ((s Str)) (! (=> (= (str_len s) 0) (= s %s)) :pattern ((str_len s)))))", name))
+		}
 		if len(s) <= 16 {
 			for i := 0; i < len(s); i++ {
 				e.pre = append(e.pre, fmt.Sprintf("(assert (= (str_at %s %d) %d))", name, i, s[i]))
